@@ -1,0 +1,85 @@
+//! Public wrappers over the task primitives for external runtime verification
+//! (feature `verif-hooks`). Not for production use!
+#![allow(missing_docs, missing_debug_implementations, unreachable_pub)]
+
+use std::future::Future;
+
+use super::promise::Stage;
+use super::{CancelToken, Promise, Runnable};
+
+/// Handle to a scheduled task. Dropping it cancels the task.
+pub struct VRunnable(Runnable);
+
+impl VRunnable {
+    /// Polls the wrapped future.
+    pub fn run(self) {
+        self.0.run()
+    }
+}
+
+/// Outcome of [`VPromise::poll`].
+#[derive(Debug, PartialEq, Eq)]
+pub enum VStage<U> {
+    Ready(U),
+    Pending,
+    Cancelled,
+}
+
+/// Handle to the output of a task.
+pub struct VPromise<U: Send + 'static>(Promise<U>);
+
+impl<U: Send + 'static> VPromise<U> {
+    pub fn poll(&self) -> VStage<U> {
+        match self.0.poll() {
+            Stage::Ready(u) => VStage::Ready(u),
+            Stage::Pending => VStage::Pending,
+            Stage::Cancelled => VStage::Cancelled,
+        }
+    }
+}
+
+/// Handle that can cancel a task.
+pub struct VCancelToken(CancelToken);
+
+impl VCancelToken {
+    pub fn cancel(self) {
+        self.0.cancel()
+    }
+}
+
+/// Spawns a task. The scheduling function must be zero-sized.
+pub fn spawn<F, S, T>(
+    future: F,
+    schedule_fn: S,
+    tag: T,
+) -> (VPromise<F::Output>, VRunnable, VCancelToken)
+where
+    F: Future + Send + 'static,
+    F::Output: Send + 'static,
+    S: Fn(VRunnable, T) + Send + Sync + 'static,
+    T: Clone + Send + Sync + 'static,
+{
+    let (promise, runnable, cancel_token) =
+        super::spawn(future, move |r, t| schedule_fn(VRunnable(r), t), tag);
+
+    (
+        VPromise(promise),
+        VRunnable(runnable),
+        VCancelToken(cancel_token),
+    )
+}
+
+/// Spawns a task which output will never be retrieved. The scheduling function
+/// must be zero-sized.
+pub fn spawn_and_forget<F, S, T>(future: F, schedule_fn: S, tag: T) -> (VRunnable, VCancelToken)
+where
+    F: Future + Send + 'static,
+    F::Output: Send + 'static,
+    S: Fn(VRunnable, T) + Send + Sync + 'static,
+    T: Clone + Send + Sync + 'static,
+{
+    let (runnable, cancel_token) =
+        super::spawn_and_forget(future, move |r, t| schedule_fn(VRunnable(r), t), tag);
+
+    (VRunnable(runnable), VCancelToken(cancel_token))
+}
